@@ -97,6 +97,8 @@ inductive Clause
   /-- bytes_bound -/
   | bytesBound
   | badStat
+  /-- the store's own consistency check (`validate`, compiled out): its byte count is the bytes of its data -/
+  | accounting
   /-- accounting / exact replay of private streams under concurrent use -/
   | concurrent
   /-- an exported method panicked -/
@@ -170,11 +172,15 @@ def iterClause (st : MState) (k : Key) (i : Int) (cm : CtxMode) (stop : Option N
       | none => some .ctxErrLive
     | _ => some .afterWrong
 
-/-- The byte bound on a `stat` probe: the bytes counted from the retained data exceed the configured
-maximum (the reported one under the default) by no more than the most recent item. -/
+/-- A `stat` probe.  `MemoryEventStore.validate` (mcp/event.go; compiled out by `validateMemoryEventStore =
+false`): the store's byte count `nBytes` — which alone drives eviction — equals the bytes counted from the
+data it retains.  The byte bound: the bytes counted from the retained data exceed the configured maximum
+(the reported one under the default) by no more than the most recent item. -/
 def statClause (st : MState) (obs : Obs) : Option Clause :=
   match obs with
-  | .stat _ m r => if r ≤ st.maxCfg.getD m + st.lastApp then none else some .bytesBound
+  | .stat n m r =>
+    if n ≠ r then some .accounting
+    else if r ≤ st.maxCfg.getD m + st.lastApp then none else some .bytesBound
   | _ => some .badStat
 
 /-- The bookkeeping after an API call. -/
@@ -278,7 +284,7 @@ def recStep (s : Store String) : Rec → Option (Store String × Obs)
     | some (s', nested) =>
       let d := deliver .ignore (afterIter s k i) stop none
       some (s', .iter d.1 d.2 nested)
-  | .stat => some (s, .stat s.nBytes s.maxBytes s.nBytes)
+  | .stat => some (s, .stat s.nBytes s.maxBytes (retainedBytes psz s.store))
   | .concurrent => some (s, .consistent)
 
 /-- The model on a record sequence: the observations, oldest first (`none`: a model-level panic). -/
